@@ -71,6 +71,7 @@ def sources_of(cfg):
     s = [('url',), ('app_res',), ('route_res',)]
     if cfg.get('embedded'):
         s.append(('outer_res',))
+        s.append(('prefix_url',))       # a binding in the prefix the application is embedded under
     for i, m in enumerate(cfg['mws']):
         for ph in PHASES:
             if m.get(ph):
@@ -81,6 +82,8 @@ def sources_of(cfg):
 def inject(cfg, name, src):
     if src[0] == 'url':
         cfg['url'].append(name)
+    elif src[0] == 'prefix_url':
+        cfg.setdefault('prefix_url', []).append(name)
     elif src[0] in ('app_res', 'route_res', 'outer_res'):
         cfg[src[0]].append(name)
     else:
@@ -103,6 +106,8 @@ def injections(cfg):
                     continue
                 if s1[0].endswith('_res') and s2[0].endswith('_res'):
                     continue
+                if set([s1[0], s2[0]]) == set(['url', 'prefix_url']):
+                    continue       # one name bound twice in one pattern: a malformed pattern (C05), not a name conflict
                 c = copy.deepcopy(cfg)
                 inject(c, name, s1)
                 inject(c, name, s2)
@@ -122,6 +127,8 @@ def injections(cfg):
         if s1 == s2 and s1[0] != 'mw':
             continue
         if s1[0].endswith('_res') and s2[0].endswith('_res'):
+            continue
+        if set([s1[0], s2[0]]) == set(['url', 'prefix_url']):
             continue
         for t1, t2 in seconds:
             c = copy.deepcopy(cfg)
@@ -153,6 +160,16 @@ def misplacements(cfg):
                 c = copy.deepcopy(cfg)
                 c['mws'][i][ph]['params'] = [['context', role]]
                 yield ('context-%s:mw.%s' % (role, ph), c)
+    for role in ('req', 'kwreq'):
+        # the same misplacements on functions wrapped by clastic_decorator
+        c = copy.deepcopy(cfg)
+        c['endpoint']['params'] = [['next', role]]
+        c['endpoint']['kind'] = 'decorated'
+        yield ('next-%s:endpoint-decorated' % role, c)
+        c = copy.deepcopy(cfg)
+        c['endpoint']['params'] = [['context', role]]
+        c['endpoint']['kind'] = 'decorated'
+        yield ('context-%s:endpoint-decorated' % role, c)
     for role in ('req', 'def', 'kwreq', 'kwdef'):
         c = copy.deepcopy(cfg)
         c['endpoint']['params'] = [['next', role]]
